@@ -3,6 +3,7 @@ Implementation under test: kapture.io.structure.delete_existing_kapture_files.""
 import builtins
 import itertools
 import os
+import re
 import shutil
 
 import kv
@@ -12,18 +13,26 @@ COQ_MODELS = ['MClear']
 COQ_HEADER = 'From KV Require Import Eqb Str.\nFrom KV.Model Require Import MClear.'
 CASE_TYPE = 'MClear.case'
 CHECK_FN = 'MClear.check_case'
-RULE = ('state = kind (absent/file/folder/symlink) of each candidate path of Gen.Tables plus foreign files; '
-        'selection = only/skip lists of part types; consent = forced / answered y / answered n. '
-        'Enumerated: every single candidate x kind, every pair of candidates x kinds for a fixed selection set, '
-        'plus random states/selections. Non-trivial = at least one candidate exists AND a selection is given or '
-        'consent is refused; distinct = distinct (state, only, skip, consent-mode).')
+RULE = ('state = kind (absent/file/folder with files/empty folder/folder of empty folders/symlink to folder, file, '
+        'nothing) of each candidate path of Gen.Tables plus foreign files; selection = only/skip lists of part types; '
+        'consent = forced / answered y / answered n. A case is a SESSION of one or more calls made by one freshly '
+        'loaded kapture.io.structure: each call on the directory as the previous calls left it or on a fresh copy '
+        'of the initial directory. Enumerated: every single candidate x kind, every pair of candidates x kinds for '
+        'a fixed selection set, clear-then-call-again for every candidate x kind, pairs of `only` calls on fresh '
+        'directories, plus random states/selections/sessions. Non-trivial = at least one candidate exists AND '
+        '(a selection is given or consent is refused or the session has several calls); distinct = distinct '
+        '(state, calls).')
 TRUSTED = ['host file system semantics of os.remove / shutil.rmtree / os.path.lexists (modelled by kind only)']
 ASSUMPTIONS = ['an empty `only` list is treated by the code as "no selection" (everything is deleted); the harness '
                'never passes only=[] and the oracle does not judge it',
                'only/skip are drawn from the part types listed in CSV_FILENAMES / FEATURES_DATA_DIRNAMES',
-               'symlink targets live outside the dataset directory; the oracle checks they are untouched']
+               'symlink targets live outside the dataset directory; the oracle checks they are untouched',
+               'state carried from one call to the next is looked for in kapture.io.structure and kapture.utils.paths (the '
+               'modules reloaded before each case); sessions have at most 5 calls']
 EXHAUSTIVE = {'quick': False, 'thorough': False}
-KINDS = ['absent', 'file', 'dir', 'link_dir', 'link_file', 'link_broken']
+KINDS = ['absent', 'file', 'dir', 'link_dir', 'link_file', 'link_broken', 'dir_empty', 'dir_empty_nested']
+KINDS_OLD = KINDS[1:6]
+KINDS_EMPTY = KINDS[6:]
 # names for the dataset directory itself; for each, a SIBLING directory with a look-alike name (other unicode
 # normalisation form / case / blanks) holds dataset files too and must never be touched
 ROOTNAMES = ['cafe\u0301', 'caf\u00e9', 'data set', 'Data', 'data.v1', '\u1100\u1161', 'a\u030a', 'x/../data2', 'data3/']
@@ -46,22 +55,40 @@ def _tables():
     return types, rows, rdata
 
 
+def _steps(case):
+    """The calls of a case: a session ('steps') or the single call given by the top-level fields."""
+    if case.get('steps'):
+        return [{'only': c.get('only'), 'skip': c.get('skip'), 'consent': c['consent'], 'fresh': bool(c.get('fresh'))}
+                for c in case['steps']]
+    return [{'only': case['only'], 'skip': case['skip'], 'consent': case['consent'], 'fresh': False}]
+
+
 def gen_cases(rng, tier):
     types, rows, rdata = _tables()
     paths = sorted({r[1] for r in rows} | {rdata})
     names = [r[0] for r in rows]
     cases = []
+    FOREIGN = ['notes.md', 'sensors/mine.txt', 'reconstruction/extra/x.bin']
 
     def mk(state, only, skip, consent, rootname='data'):
         cases.append({'state': state, 'only': only, 'skip': skip, 'consent': consent, 'rootname': rootname,
-                      'foreign': ['notes.md', 'sensors/mine.txt', 'reconstruction/extra/x.bin']})
+                      'foreign': list(FOREIGN)})
+
+    def mks(state, steps, rootname='data'):
+        cases.append({'state': state, 'rootname': rootname, 'foreign': list(FOREIGN),
+                      'steps': [{'only': o, 'skip': k, 'consent': c, 'fresh': f} for (o, k, c, f) in steps]})
     sel_small = [(None, None), (None, ['RecordsCamera']), (['Keypoints'], None), (None, ['Keypoints', 'Matches']),
                  (['RecordsCamera', 'RecordsDepth', 'RecordsLidar'], None), (None, ['Sensors'])]
     # every single candidate in every kind, every selection of the small set, three consent modes
     for p in paths:
-        for k in KINDS[1:]:
+        for k in KINDS_OLD:
             for only, skip in sel_small:
                 for consent in ('force', 'y', 'n'):
+                    mk({p: k}, only, skip, consent)
+        # folders that hold no file (interrupted import, layout prepared by hand): consent is needed all the same
+        for k in KINDS_EMPTY:
+            for only, skip in sel_small:
+                for consent in ('n', 'y'):
                     mk({p: k}, only, skip, consent)
     # singleton only / skip for every type with a full directory
     full = {p: ('dir' if not p.endswith('.txt') else 'file') for p in paths}
@@ -71,6 +98,14 @@ def gen_cases(rng, tier):
         nd = dict(full)
         nd.pop(rdata, None)
         mk(nd, None, [n], 'y')
+    # whole layouts made of empty folders only / of empty folders next to dataset files
+    dirs_only = {p: 'dir_empty' for p in paths if not p.endswith('.txt')}
+    nested_only = {p: 'dir_empty_nested' for p in paths if not p.endswith('.txt')}
+    mixed = {p: ('dir_empty' if not p.endswith('.txt') else 'file') for p in paths}
+    for stt in (dirs_only, nested_only, mixed):
+        for only, skip in sel_small:
+            for consent in ('n', 'y', '', 'force'):
+                mk(dict(stt), only, skip, consent)
     # dataset directories whose own name is unusual: the call must act on exactly the directory it was given
     # (decomposed / composed accents are distinct names on Linux; spaces, dots, trailing slash, '..' detours)
     for rootname in ROOTNAMES:
@@ -85,17 +120,49 @@ def gen_cases(rng, tier):
         only, skip = rng.choice(sel_small)
         mk({p: rng.choice(KINDS[1:]), q: rng.choice(KINDS[1:])}, only, skip, rng.choice(['force', 'y', 'n']))
     # random states and selections
-    n_rand = 300 if tier == 'quick' else 6000
-    for _ in range(n_rand):
+
+    def rand_state():
         st = {p: rng.choice(KINDS) for p in paths if rng.random() < rng.choice([0.2, 0.6, 0.95])}
-        st = {p: k for p, k in st.items() if k != 'absent'}
+        return {p: k for p, k in st.items() if k != 'absent'}
+
+    def rand_sel():
         mode = rng.choice(['none', 'only', 'skip', 'skip'])
         only = skip = None
         if mode == 'only':
             only = rng.sample(names, rng.randint(1, rng.choice([1, 3, len(names)])))
         elif mode == 'skip':
             skip = rng.sample(names, rng.randint(0, rng.choice([1, 3, len(names)])))
-        mk(st, only, skip, rng.choice(['force', 'y', 'n', 'Y', '']))
+        return only, skip
+    n_rand = 300 if tier == 'quick' else 6000
+    for _ in range(n_rand):
+        only, skip = rand_sel()
+        mk(rand_state(), only, skip, rng.choice(['force', 'y', 'n', 'Y', '']))
+    # ---- sessions: several calls made by one process
+    # (a) clear, then call again on the cleared directory without consent: nothing is left to ask about
+    for p in paths:
+        for k in KINDS[1:]:
+            mks({p: k}, [(None, None, rng.choice(['force', 'y']), False), (None, None, 'n', False)])
+    # (b) two `only` / `skip` calls on two fresh full directories: the second must not depend on the first
+    file_types = [t for t, _, f in rows if f]
+    n_pairs = 40 if tier == 'quick' else 400
+    for _ in range(n_pairs):
+        a, b = rng.sample(names, 2)
+        if _ % 3 == 2:
+            mks(dict(full), [(None, [a], 'force', True), (None, [b], rng.choice(['force', 'y']), True)])
+        else:
+            mks(dict(full), [([a], None, 'force', True), ([b], None, rng.choice(['force', 'y']), True)])
+    for x in rng.sample(names, 6 if tier == 'quick' else len(names)):
+        mks(dict(full), [(list(file_types), None, 'force', True), ([x], None, 'force', True)])
+        mks(dict(full), [(None, [x], 'y', True), (None, None, 'n', True), (None, [x], 'force', True)])
+    # (c) random sessions
+    n_sess = 120 if tier == 'quick' else 2000
+    for _ in range(n_sess):
+        st = rand_state() if rng.random() < 0.7 else dict(full)
+        steps = []
+        for _i in range(rng.randint(2, 5)):
+            only, skip = rand_sel()
+            steps.append((only, skip, rng.choice(['force', 'y', 'n', 'n', '']), rng.random() < 0.5))
+        mks(st, steps)
     return cases
 
 
@@ -126,6 +193,11 @@ def _populate(root, state, outside, foreign):
             os.makedirs(os.path.join(p, 'sub'))
             with open(os.path.join(p, 'sub', 'a.bin'), 'wb') as f:
                 f.write(b'y')
+        elif kind == 'dir_empty':
+            os.makedirs(p)
+        elif kind == 'dir_empty_nested':
+            os.makedirs(os.path.join(p, 'cam0', 'left'))
+            os.makedirs(os.path.join(p, 'cam1'))
         elif kind == 'link_dir':
             os.symlink(os.path.join(outside, 'target_dir'), p)
         elif kind == 'link_file':
@@ -139,90 +211,126 @@ def _populate(root, state, outside, foreign):
             f.write(b'user')
 
 
-def _build(case, base):
+def _build(case, base, outside):
     rootname = case.get('rootname', 'data')
     given = os.path.join(base, 'w', rootname)          # the path handed to the function, as spelled
     root = os.path.normpath(given)                      # the directory it denotes
-    outside = os.path.join(base, 'outside')
     os.makedirs(os.path.join(base, 'w', 'x'), exist_ok=True)
     os.makedirs(root)
-    os.makedirs(os.path.join(outside, 'target_dir'))
-    with open(os.path.join(outside, 'target_dir', 'keep.bin'), 'wb') as f:
-        f.write(b'precious')
-    with open(os.path.join(outside, 'target_file'), 'wb') as f:
-        f.write(b'precious-file')
-    _populate(root, case['state'], outside, case['foreign'])
+    if not os.path.exists(outside):
+        os.makedirs(os.path.join(outside, 'target_dir'))
+        with open(os.path.join(outside, 'target_dir', 'keep.bin'), 'wb') as f:
+            f.write(b'precious')
+        with open(os.path.join(outside, 'target_file'), 'wb') as f:
+            f.write(b'precious-file')
+    _populate(root, case['state'], outside, case.get('foreign', []))
     look = LOOKALIKE.get(rootname)
     if look:
         sib = os.path.join(base, 'w', look)
         if not os.path.exists(sib):
             os.makedirs(sib)
-            _populate(sib, case['state'], outside, case['foreign'])
-    return given, root, outside
+            _populate(sib, case['state'], outside, case.get('foreign', []))
+    return given, root
+
+
+def _fresh_function():
+    """delete_existing_kapture_files of freshly executed modules: every case starts from the state a new process
+    has, so that what a case observes depends on the calls of the case only (replays reproduce)."""
+    import importlib
+    import kapture.utils.paths as kpaths
+    import kapture.io.structure as kstruct
+    importlib.reload(kpaths)
+    kstruct = importlib.reload(kstruct)
+    return kstruct.delete_existing_kapture_files
+
+
+def _announced(text):
+    """The dataset paths named in the question / the refusal message ('"a", "b" already ...'), if it has that form."""
+    if not text or ' already ' not in text:
+        return None
+    head = text.split(' already ')[0]
+    if head.startswith('ValueError: '):
+        head = head[len('ValueError: '):]
+    names = re.findall(r'"([^"]*)"', head)
+    if not names or ', '.join(f'"{n}"' for n in names) != head:
+        return None
+    return [n.replace('\\', '/') for n in names]
 
 
 def run_impl(case, ctx):
-    from kapture.io.structure import delete_existing_kapture_files
+    delete_existing_kapture_files = _fresh_function()
     types, rows, rdata = _tables()
+    cand = sorted({r[1] for r in rows} | {rdata})
     base = os.path.join(ctx['tmp'], 'c')
     shutil.rmtree(base, ignore_errors=True)
     os.makedirs(base)
-    given, root, outside = _build(case, base)
-
-    def _snap_out():
-        snap = _snapshot(base)
-        pref = os.path.relpath(root, base).replace('\\', '/')
-        return {k: v for k, v in snap.items() if not (k == pref or k.startswith(pref + '/'))}
-    before_in, before_out = _snapshot(root), _snap_out()
-    only = None if case['only'] is None else [types[n] for n in case['only']]
-    skip = None if case['skip'] is None else [types[n] for n in case['skip']]
-    asked = []
+    outside = os.path.join(base, 'outside')
+    given = root = None
+    steps_obs = []
     old_input = builtins.input
-
-    def fake_input(prompt=''):
-        asked.append(prompt)
-        return case['consent']
-    builtins.input = fake_input
-    outcome, exc = 'ret', None
     try:
-        delete_existing_kapture_files(given, force_erase=(case['consent'] == 'force'), only=only, skip=skip)
-    except ValueError as e:
-        exc = f'ValueError: {e}'
-        outcome = 'refused' if 'already exist' in str(e) else 'crash'
-    except Exception as e:
-        exc = f'{type(e).__name__}: {e}'
-        outcome = 'crash'
+        for i, step in enumerate(_steps(case)):
+            if root is None or step['fresh']:
+                given, root = _build(case, os.path.join(base, f'd{i}'), outside)
+
+            def _snap_out():
+                snap = _snapshot(base)
+                pref = os.path.relpath(root, base).replace('\\', '/')
+                return {k: v for k, v in snap.items() if not (k == pref or k.startswith(pref + '/'))}
+            before_in, before_out = _snapshot(root), _snap_out()
+            only = None if step['only'] is None else [types[n] for n in step['only']]
+            skip = None if step['skip'] is None else [types[n] for n in step['skip']]
+            only_arg, skip_arg = (None if only is None else list(only)), (None if skip is None else list(skip))
+            asked = []
+
+            def fake_input(prompt='', _asked=asked, _answer=step['consent']):
+                _asked.append(prompt)
+                return _answer
+            builtins.input = fake_input
+            outcome, exc = 'ret', None
+            try:
+                delete_existing_kapture_files(given, force_erase=(step['consent'] == 'force'), only=only_arg, skip=skip_arg)
+            except ValueError as e:
+                exc = f'ValueError: {e}'
+                outcome = 'refused' if 'already exist' in str(e) else 'crash'
+            except Exception as e:
+                exc = f'{type(e).__name__}: {e}'
+                outcome = 'crash'
+            finally:
+                builtins.input = old_input
+            after_in, after_out = _snapshot(root), _snap_out()
+            removed_top = sorted((p for p in cand if p in before_in and p not in after_in), reverse=True)
+            # anything else that changed inside (not beneath a removed candidate)
+            other = []
+            for rel in set(before_in) | set(after_in):
+                if before_in.get(rel) != after_in.get(rel):
+                    if rel in removed_top or any(rel.startswith(t + '/') for t in removed_top):
+                        continue
+                    other.append(rel)
+            announced = _announced(asked[0] if asked else (exc if outcome == 'refused' else None))
+            steps_obs.append({'announced': announced, 'outcome': outcome, 'exc': exc, 'removed': removed_top, 'other_changes': sorted(other),
+                              'outside_changed': before_out != after_out, 'asked': len(asked),
+                              'present_before': {p: before_in[p].split(':')[0] for p in cand if p in before_in},
+                              'args_mutated': (only_arg != only) or (skip_arg != skip)})
     finally:
         builtins.input = old_input
-    after_in, after_out = _snapshot(root), _snap_out()
-    cand = sorted({r[1] for r in rows} | {rdata})
-    removed_top = sorted((p for p in cand if p in before_in and p not in after_in), reverse=True)
-    # anything else that changed inside (not beneath a removed candidate)
-    other = []
-    for rel in set(before_in) | set(after_in):
-        if before_in.get(rel) != after_in.get(rel):
-            if rel in removed_top or any(rel.startswith(t + '/') for t in removed_top):
-                continue
-            other.append(rel)
-    shutil.rmtree(base, ignore_errors=True)
-    return {'outcome': outcome, 'exc': exc, 'removed': removed_top, 'other_changes': sorted(other),
-            'outside_changed': before_out != after_out, 'asked': len(asked)}
+        shutil.rmtree(base, ignore_errors=True)
+    return {'steps': steps_obs}
 
 
-def _consented(case):
-    return case['consent'] == 'force' or case['consent'].lower() == 'y'
+def _consented(step):
+    return step['consent'] == 'force' or step['consent'].lower() == 'y'
 
 
-def oracle(case, obs):
-    """The property, stated directly on the observed behaviour (independent of the Coq model)."""
-    types, rows, rdata = _tables()
-    st = case['state']
-    only, skip = case['only'], case['skip']
+def _oracle_step(rows, rdata, step, obs):
+    """The property for one call, on the directory as it was observed just before the call."""
+    st = obs['present_before']
+    only, skip = step['only'], step['skip']
     if obs['outside_changed']:
         return 'something outside the dataset directory was modified (symlink followed?)'
     if obs['other_changes']:
         return 'a path that is not a selected dataset file changed: ' + ','.join(obs['other_changes'][:3])
-    if not _consented(case):
+    if not _consented(step):
         if obs['removed']:
             return 'deleted without consent: ' + ','.join(obs['removed'][:3])
         if obs['outcome'] == 'crash':
@@ -230,6 +338,10 @@ def oracle(case, obs):
         return None
     if obs['outcome'] != 'ret':
         return f'call did not succeed although consent was given: {obs["exc"]}'
+    if step['consent'] != 'force' and obs['removed'] and not obs['asked']:
+        return 'deleted without being forced and without asking: ' + ','.join(obs['removed'][:3])
+    if step['consent'] != 'force' and obs.get('announced') is not None and set(obs['removed']) - set(obs['announced']):
+        return 'deleted a path that the confirmed question did not name: ' + ','.join(sorted(set(obs['removed']) - set(obs['announced']))[:3])
 
     def selected(t):
         if only:
@@ -248,49 +360,91 @@ def oracle(case, obs):
     return None
 
 
-_K = {'file': 'File', 'dir': 'Dir', 'link_dir': 'Link', 'link_file': 'Link', 'link_broken': 'Link'}
+def oracle(case, obs):
+    """The property, stated directly on the observed behaviour (independent of the Coq model), at every call."""
+    types, rows, rdata = _tables()
+    steps = _steps(case)
+    for i, (step, so) in enumerate(zip(steps, obs['steps'])):
+        sig = _oracle_step(rows, rdata, step, so)
+        if sig:
+            return sig if len(steps) == 1 else f'call {i + 1} of {len(steps)} in one process: {sig}'
+    if len(obs['steps']) != len(steps):
+        return 'session did not run to its end'
+    return None
+
+
+_K = {'file': 'File', 'dir': 'Dir', 'dir_empty': 'Dir', 'dir_empty_nested': 'Dir',
+      'link_dir': 'Link', 'link_file': 'Link', 'link_broken': 'Link'}
+_OC = {'ret': 'ORet', 'refused': 'ORefused', 'crash': 'OCrash'}
 
 
 def encode(case, obs):
     st = kv.clist(kv.cpair(kv.cstr(p), _K[k]) for p, k in sorted(case['state'].items()))
-    oc = {'ret': 'ORet', 'refused': 'ORefused', 'crash': 'OCrash'}[obs['outcome']]
-    return ('{| c_only := %s; c_skip := %s; c_state := %s; c_consent := %s; o_outcome := %s; o_removed := %s |}' % (
-        kv.clist(kv.cstr(x) for x in (case['only'] or [])), kv.clist(kv.cstr(x) for x in (case['skip'] or [])),
-        st, kv.cbool(_consented(case)), oc, kv.clist(kv.cstr(x) for x in obs['removed'])))
+    terms = []
+    for step, so in zip(_steps(case), obs['steps']):
+        call = '{| k_only := %s; k_skip := %s; k_force := %s; k_yes := %s; k_fresh := %s |}' % (
+            kv.clist(kv.cstr(x) for x in (step['only'] or [])), kv.clist(kv.cstr(x) for x in (step['skip'] or [])),
+            kv.cbool(step['consent'] == 'force'), kv.cbool(step['consent'].lower() == 'y'), kv.cbool(step['fresh']))
+        terms.append('{| s_call := %s; o_outcome := %s; o_removed := %s; o_asked := %s; o_announced := %s |}' % (
+            call, _OC[so['outcome']], kv.clist(kv.cstr(x) for x in so['removed']), kv.cbool(so['asked'] > 0),
+            kv.copt(None if so.get('announced') is None else kv.clist(kv.cstr(x) for x in so['announced']))))
+    return '{| c_state := %s; c_steps := %s |}' % (st, kv.clist(terms))
 
 
 def nontrivial(case, obs):
-    return bool(case['state']) and (bool(case['only']) or bool(case['skip']) or not _consented(case))
+    steps = _steps(case)
+    return bool(case['state']) and (len(steps) > 1 or bool(steps[0]['only']) or bool(steps[0]['skip'])
+                                    or not _consented(steps[0]))
 
 
 def classify(case, obs):
-    sel = 'only' if case['only'] else ('skip' if case['skip'] else 'all')
-    return f'{sel}/{"consent" if _consented(case) else "noconsent"}/{obs["outcome"]}/n={min(len(case["state"]), 5)}'
+    steps = _steps(case)
+    step, so = steps[-1], obs['steps'][-1]
+    sel = 'only' if step['only'] else ('skip' if step['skip'] else 'all')
+    empt = '/emptydirs' if any(k in KINDS_EMPTY for k in case['state'].values()) else ''
+    return (f'calls={len(steps)}/{sel}/{"consent" if _consented(step) else "noconsent"}/{so["outcome"]}'
+            f'/n={min(len(case["state"]), 5)}{empt}')
 
 
 def describe(case, obs):
-    return {'state': case['state'], 'only': case['only'], 'skip': case['skip'], 'consent': case['consent'],
-            'observed': {k: obs[k] for k in ('outcome', 'removed', 'exc')}}
+    return {'state': case['state'], 'calls': _steps(case),
+            'observed': [{k: so[k] for k in ('outcome', 'removed', 'asked', 'exc')} for so in obs['steps']]}
 
 
 def shrink(case):
+    steps = _steps(case)
+    if len(steps) > 1:
+        for i in range(len(steps)):
+            c = {k: v for k, v in case.items() if k not in ('only', 'skip', 'consent')}
+            c['steps'] = steps[:i] + steps[i + 1:]
+            yield c
     for p in list(case['state']):
         c = dict(case)
         c['state'] = {q: k for q, k in case['state'].items() if q != p}
         yield c
-    for key in ('only', 'skip'):
-        if case[key] and len(case[key]) > 1:
-            for x in case[key]:
-                c = dict(case)
-                c[key] = [y for y in case[key] if y != x]
-                yield c
+    for i, step in enumerate(steps):
+        for key in ('only', 'skip'):
+            if step[key] and len(step[key]) > 1:
+                for x in step[key]:
+                    c = {k: v for k, v in case.items() if k not in ('only', 'skip', 'consent')}
+                    c['steps'] = [dict(s2) for s2 in steps]
+                    c['steps'][i][key] = [y for y in step[key] if y != x]
+                    yield c
 
-TECHNIQUE = 'Coq proof (iff-characterisation of the deleted set, totality, action-by-kind) over a Gallina model instantiated with tables regenerated from the source; differential correspondence by vm_compute'
-LEVEL_TEXT = ('Theorems in coq/Props/C19.v hold for every directory state, every only/skip selection and both consent values: '
-              'nothing is deleted without consent, the call always succeeds with consent, the deleted set is exactly the '
-              'existing paths of selected parts (records_data kept iff a kept part stores record files), links and files are '
-              'unlinked and only real folders removed recursively, candidate paths are pairwise non-nested. The model is tied '
-              'to the code by running delete_existing_kapture_files on real directories (all kinds incl. symlinks to an outside '
-              'sentinel) and comparing outcome and removed set inside Coq.')
+TECHNIQUE = ('Coq proof (iff-characterisation of the deleted set, totality, action-by-kind, prompt iff, and invariants of '
+             'sessions of calls by induction on the history) over a Gallina model instantiated with tables regenerated '
+             'from the source; differential correspondence by vm_compute over single calls and sessions')
+LEVEL_TEXT = ('Theorems in coq/Props/C19.v hold for every directory state, every only/skip selection, both consent values and '
+              'every history of calls: nothing is deleted without consent and a refused call leaves the directory as it was, '
+              'the call always succeeds with consent, the deleted set is exactly the existing paths of selected parts '
+              '(records_data kept iff a kept part stores record files), the user is asked iff not forced and something would '
+              'be deleted, the question names exactly what a yes deletes, links and files are unlinked and only real folders '
+              'removed recursively, candidate paths are pairwise non-nested; over sessions: foreign paths keep their kind, '
+              'paths only disappear, a cleared selection stays quiet, a call on a fresh directory after any history behaves '
+              'as the call alone. The model is tied to the code by running delete_existing_kapture_files of freshly loaded '
+              'modules on real directories (all kinds incl. folders without files, symlinks to an outside sentinel, dangling '
+              'links), alone and in sessions, and comparing outcome, removed set, whether input() was called and the paths '
+              'named in the question / refusal inside Coq at every call.')
 LEVEL_NOTE = ('Trusted: Coq kernel + vm_compute, harness encoders, os.remove/rmtree/lexists semantics (modelled by kind only), '
-              'tables read by introspection. only=[] is outside the judged domain.')
+              'tables read by introspection. only=[] is outside the judged domain. Module state is reset (importlib.reload of '
+              'kapture.utils.paths and kapture.io.structure) before every case, so histories are exactly the calls of a case.')
